@@ -132,7 +132,10 @@ func (b *definitionDescriptionParser) Open(
 		l := lines.Len()
 		for i := 0; i < l; i++ {
 			term := ast.NewDefinitionTerm()
+			// the paragraph is taken over before it was closed: drop the
+			// leading white space (and with it the padding) of its lines here
 			segment := lines.At(i)
+			segment = segment.TrimLeftSpace(reader.Source())
 			term.Lines().Append(segment.TrimRightSpace(reader.Source()))
 			list.AppendChild(list, term)
 		}
